@@ -160,14 +160,18 @@ class Path:
 
 
 class _Expand(ast.NodeTransformer):
-    def __init__(self, env):
+    def __init__(self, env, known_none=()):
         self.env = env
+        self.known_none = known_none
 
     def visit_Name(self, node):
         if isinstance(node.ctx, ast.Load) and node.id in self.env:
             v = self.env[node.id]
             if v is not None:
                 return clone(v)
+        elif isinstance(node.ctx, ast.Load) and node.id in self.known_none:
+            # a name never bound on this path (a parameter) that the path's condition says is None
+            return ast.copy_location(ast.Constant(value=None), node)
         return node
 
     def visit_Lambda(self, node):
@@ -288,7 +292,8 @@ class Summariser:
     def expand(self, e, p):
         if e is None:
             return None
-        out = _Expand(p.env).visit(clone(e))
+        none = {a[:-len(" is None")] for a, v, _ in p.cond if v and a.endswith(" is None") and a[:-len(" is None")].isidentifier()}
+        out = _Expand(p.env, none - set(p.env)).visit(clone(e))
         ast.fix_missing_locations(out)
         return out
 
@@ -428,6 +433,17 @@ class Summariser:
             both = ast.BoolOp(op=ast.And(), values=[
                 ast.Call(func=ast.Name(id="hasattr", ctx=ast.Load()), args=[e.args[0], e.args[1]], keywords=[]),
                 ast.Attribute(value=e.args[0], attr=e.args[1].value, ctx=ast.Load())])
+            ast.fix_missing_locations(both)
+            yield from self.outcomes(both, p)
+            return
+        if isinstance(e, ast.Compare) and len(e.ops) > 1 and not any(self.is_effectful(x) for x in [e.left] + e.comparators):
+            # a chained comparison of effect-free operands is the conjunction of its links
+            links, left = [], e.left
+            for op, right in zip(e.ops, e.comparators):
+                links.append(ast.Compare(left=left, ops=[op], comparators=[right]))
+                left = right
+            both = ast.BoolOp(op=ast.And(), values=links)
+            ast.copy_location(both, e)
             ast.fix_missing_locations(both)
             yield from self.outcomes(both, p)
             return
@@ -768,7 +784,7 @@ class Summariser:
                     normal.append(q)
             for h in st.handlers:
                 q = p.fork()
-                for w in _written(ast.Module(body=st.body, type_ignores=[])):
+                for w in _unsure_after_raise(st.body, norm(h.type) if h.type is not None else None):
                     q.env[w] = None
                 q.cond.append((f"try@{st.lineno} raises {norm(h.type) if h.type is not None else 'BaseException'}", True, h))
                 q.effects.append(("try-body", None, st))
@@ -799,6 +815,44 @@ class Summariser:
                     p.effects.append(("store", ast.Delete(targets=[self.expand(t, p)]), st))
             return [p]
         raise AnalysisError(f"path summariser: unmodelled statement `{norm(st).splitlines()[0][:60]}` in {self.fn.name}")
+
+
+def _may_raise(st, htype):
+    """can executing `st` raise an exception the handler type `htype` catches?  Only ValueError is treated specially: it
+    comes from calls, raise statements, suspended generators and unpacking of non-displays - never from reading a name, an
+    attribute or an item."""
+    if htype != "ValueError":
+        return not (isinstance(st, (ast.Assign, ast.Pass)) and all(isinstance(n, (ast.Name, ast.Constant, ast.Assign, ast.Tuple,
+                    ast.Load, ast.Store)) for n in ast.walk(st)))
+    for n in ast.walk(st):
+        if isinstance(n, (ast.Call, ast.Raise, ast.Yield, ast.YieldFrom, ast.Await, ast.With, ast.For, ast.Import, ast.ImportFrom,
+                          ast.FunctionDef, ast.ClassDef, ast.Starred, ast.BinOp, ast.FormattedValue)):
+            return True
+        if isinstance(n, ast.Assign) and any(isinstance(t, (ast.Tuple, ast.List)) and not (
+                isinstance(n.value, (ast.Tuple, ast.List)) and len(n.value.elts) == len(t.elts)) for t in n.targets):
+            return True
+    return False
+
+
+def _unsure_after_raise(body, htype):
+    """names whose binding is unknown when a handler for `htype` is entered: everything the protected block writes up to
+    the last statement that can raise; that statement's own plain name targets are bound only after its value was computed
+    (so they still have their old binding), and the statements after it have not run"""
+    idx = [i for i, st in enumerate(body) if _may_raise(st, htype)]
+    if not idx:
+        return set()
+    k = idx[-1]
+    out = set()
+    for st in body[:k]:
+        out |= _written(ast.Module(body=[st], type_ignores=[]))
+    last = body[k]
+    simple = isinstance(last, ast.Assign) and all(
+        isinstance(t, ast.Name) or (isinstance(t, (ast.Tuple, ast.List)) and all(isinstance(e, ast.Name) for e in t.elts)
+                                    and isinstance(last.value, (ast.Tuple, ast.List)) and len(last.value.elts) == len(t.elts))
+        for t in last.targets)
+    if not simple:
+        out |= _written(ast.Module(body=[last], type_ignores=[]))
+    return out
 
 
 def _first_ifexp(e, bound=frozenset()):
